@@ -67,8 +67,15 @@ pub fn build(toks: &[&str]) -> (Built, usize) {
         panic!("bad ctype")
     };
     let k: usize = toks[2][1..].parse().unwrap();
-    let mut response = Response::new(code);
-    response.content_type = content_type;
+    // the content type is set through the builder (with_type) or by assigning the public field, by turns (parity of
+    // the status code): the same response either way
+    let mut response = if code % 2 == 0 {
+        Response::new(code).with_type(content_type)
+    } else {
+        let mut r = Response::new(code);
+        r.content_type = content_type;
+        r
+    };
     let mut i = 3;
     for _ in 0..k {
         let name = ascii(toks[i]);
